@@ -180,6 +180,106 @@ def check_body(classes, coding, body, meta, rng, part, exhaustive_limit, thoroug
                 part.count('error_reported_' + kind)
 
 
+def stream_workload(rng, part, n_sequences):
+    '''Second workload: the real HTTP Stream.read_body decodes several responses in a row on ONE Stream object
+    (keep-alive), each under its own segmentation; corrupt / truncated coded bodies must raise ProtocolError.'''
+    import asyncio
+    import io
+    from harness import netsim
+    from wpull.network.connection import Connection
+    from wpull.protocol.http.stream import Stream
+    from wpull.protocol.http.request import Request
+    from wpull.errors import ProtocolError, NetworkError
+
+    for _ in range(n_sequences):
+        k = rng.choice([1, 2, 3, 4])
+        specs = []
+        for i in range(k):
+            payload = make_payload(rng)
+            form = rng.choice(['gzip', 'zlib', 'raw', 'identity', 'identity'])
+            damage = None
+            if form == 'identity':
+                body, header = payload, None
+            else:
+                body, meta = encode(rng, payload, form)
+                header = 'gzip' if form == 'gzip' else 'deflate'
+                if i == k - 1 and rng.random() < 0.3 and len(body) > 4:
+                    damage = rng.choice(['truncate', 'flip'])
+                    if damage == 'truncate':
+                        body = body[:rng.randrange(1, len(body))]
+                    else:
+                        b = bytearray(body)
+                        b[rng.randrange(len(b))] ^= 1 << rng.randrange(8)
+                        body = bytes(b)
+            head = b'HTTP/1.1 200 OK\r\nContent-Length: ' + str(len(body)).encode() + b'\r\n'
+            if header and not (form != 'identity' and rng.random() < 0.0):
+                head += b'Content-Encoding: ' + header.encode() + b'\r\n'
+            wire = head + b'\r\n' + body
+            n = len(wire)
+            cuts = sorted(set(rng.randrange(1, n) for _ in range(rng.choice([0, 1, 3, 8]))))
+            if rng.random() < 0.2:
+                cuts = list(range(1, n))
+            pieces, prev = [], 0
+            for c in cuts + [n]:
+                pieces.append(wire[prev:c])
+                prev = c
+            specs.append({'payload': payload, 'form': form, 'coding': header, 'body': body, 'pieces': pieces, 'damage': damage})
+        results = []
+
+        async def main():
+            net = netsim.Net().install()
+            try:
+                peer = netsim.HTTPScriptPeer([{'pieces': sp['pieces'], 'then': 'keep'} for sp in specs])
+                net.add_peer('127.0.0.1', 80, peer)
+                conn = Connection(('127.0.0.1', 80))
+                await conn.connect()
+                stream = Stream(conn, keep_alive=True)
+                for sp in specs:
+                    request = Request('http://h.test/x')
+                    buf = io.BytesIO()
+                    try:
+                        await stream.write_request(request)
+                        response = await stream.read_response()
+                        await stream.read_body(request, response, file=buf)
+                        results.append((None, buf.getvalue()))
+                    except Exception as e:
+                        results.append((e, buf.getvalue()))
+                        break
+                conn.close()
+            finally:
+                net.uninstall()
+        netsim.run(main(), timeout=60)
+        for i, (sp, (exc, got)) in enumerate(zip(specs, results)):
+            part.evaluations += 1
+            part.count('stream_bodies_read')
+            replay = {'stream_sequence': [{'form': x['form'], 'damage': x['damage'], 'body': x['body'],
+                                           'pieces': x['pieces'], 'payload_len': len(x['payload'])} for x in specs], 'index': i}
+            prev_form = specs[i - 1]['form'] if i else 'none'
+            part.nontrivial_case('stream/{}/after-{}/{}/{}'.format(sp['form'], prev_form, sp['damage'], min(len(sp['pieces']), 9)))
+            try:
+                expected = ref_decode(sp['body'], sp['coding'] or 'identity')
+                ref_err = None
+            except RefError as e:
+                expected, ref_err = None, str(e)
+            if ref_err is None:
+                if exc is not None:
+                    part.violation('stream-valid-body-rejected/{}/after-{}'.format(sp['form'], prev_form),
+                                   {'error': repr(exc)[:200], 'position': i}, replay)
+                elif got != expected:
+                    part.violation('stream-body-differs/{}/after-{}'.format(sp['form'], prev_form),
+                                   {'got_len': len(got), 'want_len': len(expected), 'position': i}, replay)
+                else:
+                    part.count('stream_bodies_equal_to_oneshot')
+            else:
+                if exc is None:
+                    part.violation('stream-{}-body-accepted/{}'.format(sp['damage'] or 'bad', sp['form']),
+                                   {'got_len': len(got), 'reference_error': ref_err}, replay)
+                elif not isinstance(exc, (ProtocolError, NetworkError)):
+                    part.violation('stream-wrong-error-kind/{}'.format(type(exc).__name__), {'error': repr(exc)[:200]}, replay)
+                else:
+                    part.count('stream_bad_bodies_reported_as_protocol_error')
+
+
 def worker(job):
     import compat
     compat.install()
@@ -197,6 +297,12 @@ def worker(job):
     thorough = job.get('thorough', False)
     if 'replay' in job:
         rp = common.unjson(job['replay'])
+        if 'stream_sequence' in rp:
+            part.sample({'note': 'stream sequences are replayed by re-running the seed; the recorded sequence follows',
+                         'sequence': [{k: (v if not isinstance(v, bytes) else v[:60]) for k, v in x.items() if k != 'pieces'}
+                                      for x in rp['stream_sequence']]})
+            part.evaluations += 1
+            return part.dump()
         check_body(classes, rp['coding'], rp['body'], {'form': 'replay'}, rng, part, 0, False, rp.get('kind', 'valid'))
         # and the exact split
         try:
@@ -240,6 +346,7 @@ def worker(job):
             if coding == 'gzip' and mutated[:1] != b'\x1f':
                 continue   # no longer labelled as gzip by the magic: identity by contract
             check_body(classes, coding, mutated, meta, rng, part, 0, False, 'corrupt')
+    stream_workload(rng, part, job.get('n_stream', 0))
     # directed: raw deflate stream whose first bytes look like a zlib header
     body = crafted_raw_with_zlib_header()
     check_body(classes, 'deflate', body, {'form': 'raw-with-zlib-looking-header'}, rng, part, 64, False, 'valid')
@@ -264,6 +371,7 @@ def main():
         total = int((40000 if check.thorough else 1600) * check.scale)
         nj = check.jobs * (4 if check.thorough else 1)
         jobs = [{'seed': check.seed * 1000003 + i, 'n': max(1, total // nj), 'thorough': check.thorough,
+                 'n_stream': (20000 if check.thorough else 1600) // nj,
                  'exhaustive_limit': 400 if check.thorough else 160} for i in range(nj)]
         res = par.run_jobs(target, jobs, check.jobs, timeout=7200 if check.thorough else 900)
     for r in res:
@@ -272,7 +380,8 @@ def main():
         else:
             check.merge(r)
     check.finish(required_counters=() if check.args.replay else (
-        'equal_to_oneshot', 'splits_truncated', 'splits_corrupt'))
+        'equal_to_oneshot', 'splits_truncated', 'splits_corrupt', 'stream_bodies_equal_to_oneshot',
+        'stream_bad_bodies_reported_as_protocol_error'))
 
 
 if __name__ == '__main__':
